@@ -136,6 +136,66 @@ func (st *yamlStyle) factorDoc(doc orderedJSON) (*yaml.Node, any) {
 	return out, newDoc
 }
 
+// repeatAnchors makes some free-form subtrees occur twice - once written out under an anchor, once more
+// as an alias under a new key right behind it - and gives EVERY such anchor the same name: YAML lets an
+// anchor name be redefined, and an alias refers to the most recent definition before it. Returns how
+// many subtrees were repeated.
+func (st *yamlStyle) repeatAnchors(root *yaml.Node) int {
+	count := 0
+	var walk func(n *yaml.Node, free bool)
+	walk = func(n *yaml.Node, free bool) {
+		switch n.Kind {
+		case yaml.MappingNode:
+			have := map[string]bool{}
+			for i := 0; i+1 < len(n.Content); i += 2 {
+				have[n.Content[i].Value] = true
+			}
+			out := make([]*yaml.Node, 0, len(n.Content))
+			for i := 0; i+1 < len(n.Content); i += 2 {
+				k, v := n.Content[i], n.Content[i+1]
+				out = append(out, k, v)
+				key := k.Value
+				childFree := free || !(key == "steps" || key == "env" || key == "plugins" || key == "matrix" || key == "cache" || key == "signature" ||
+					key == "command" || key == "commands" || key == "key" || key == "label" || key == "name" || key == "id" || key == "identifier" || key == "group" ||
+					key == "x-anchors")
+				container := (v.Kind == yaml.MappingNode || v.Kind == yaml.SequenceNode) && len(v.Content) > 0
+				if k.Tag != "!!merge" && key != "plugins" && key != "signature" && childFree && container && v.Anchor == "" && count < 3 && !have[key+"_again"] && st.rng.Intn(3) == 0 {
+					count++
+					v.Anchor = "r"
+					out = append(out, st.strNode(key+"_again"), &yaml.Node{Kind: yaml.AliasNode, Alias: v, Value: "r"})
+					continue // nothing inside v is anchored: the alias behind it must mean v
+				}
+				switch key {
+				case "signature":
+					// (a typed record without room for extra keys)
+				case "plugins":
+					// the keys right below are plugin SOURCES: nothing is added next to them, only inside the configs
+					items := []*yaml.Node{v}
+					if v.Kind == yaml.SequenceNode {
+						items = v.Content
+					}
+					for _, it := range items {
+						if it.Kind == yaml.MappingNode {
+							for j := 1; j < len(it.Content); j += 2 {
+								walk(it.Content[j], true)
+							}
+						}
+					}
+				default:
+					walk(v, childFree)
+				}
+			}
+			n.Content = out
+		case yaml.SequenceNode:
+			for _, c := range n.Content {
+				walk(c, free)
+			}
+		}
+	}
+	walk(root, false)
+	return count
+}
+
 // renderYAML returns the YAML text of the document in the style and the
 // document that text denotes.
 func renderYAML(doc any, st *yamlStyle) (string, any) {
@@ -143,6 +203,16 @@ func renderYAML(doc any, st *yamlStyle) (string, any) {
 	denotes := doc
 	if m, ok := doc.(orderedJSON); ok && st.factor {
 		n, denotes = st.factorDoc(m)
+		if st.rng.Intn(2) == 0 && st.repeatAnchors(n) > 0 {
+			// what the node graph denotes, read by the harness's own walker (aliases by pointer, its own merge rules)
+			saved := avExotic
+			a, err := avFromNode(n, 0)
+			avExotic = saved
+			if err != nil {
+				fatal("harness: cannot read back the factored node graph: %v", err)
+			}
+			denotes = docFromAV(a)
+		}
 	} else {
 		n = st.node(doc)
 	}
